@@ -2,6 +2,8 @@
 //
 // The legs that run in the NORMAL tiers (key / value representation, held listings, re-entrant actions, zero value) are in
 // legs3.go; they share this file's engine (meng) and oracle.
+// Fourth wave, also NORMAL tiers: comparators whose RESULT is a word extreme (MinInt / MinInt+1 / MaxInt …, saturating
+// differences, time keys > 292 years apart) are in legs4.go (leg "cmpres", same engine).
 //
 // The normal tiers reach 100 000 random insertions once and otherwise stay below 10 000 entries, with the -1/0/+1
 // comparator. The legs:
@@ -942,6 +944,8 @@ func runSearchCase(c scase) *meng {
 		return runPeriod(c)
 	case "keyrep": // legs3.go (normal tiers)
 		return runKeyrep(c)
+	case "cmpres": // legs4.go (normal tiers)
+		return runCmpRes(c)
 	}
 	e := newMeng("")
 	e.fail("harness", "unknown search leg %q", c.Leg)
